@@ -502,3 +502,60 @@ Section Lines.
       eapply Forall_impl; [|exact Hn]. intros r Hr. apply row_noeol_native. exact Hr.
   Qed.
 End Lines.
+
+(* ---------------------------------------------------------------- reading fewer rows than the file holds (nrows= smaller
+   than the file, or the first rows of a larger file): the first k rows come back *)
+Section Prefix.
+  Variable F P : nat -> list byte -> list byte.
+  Variable d : byte.
+  Hypothesis Hd : delim_ok d.
+
+  Lemma read_rows_prefix fs : fs <> [] -> forallb fld_ok_b fs = true ->
+    forall rows1 rows2,
+    forallb (row_ok_b fs) (rows1 ++ rows2) = true -> forallb (row_contract_b F P fs) (rows1 ++ rows2) = true ->
+    (byte_eqb d space = false -> kf_rows d fs (rows1 ++ rows2) = false) ->
+    read_rows_all P d fs (repeat true (length fs)) (length rows1) (write_rows F d fs (rows1 ++ rows2))
+    = Ok (map (rt_row F P fs) rows1).
+  Proof.
+    intros Hne Hf. induction rows1 as [|r rows1 IH]; intros rows2 Hr Hc Hkf; [reflexivity|].
+    cbn [app forallb] in Hr, Hc. apply andb_true_iff in Hr. destruct Hr as [Hr Hrs].
+    apply andb_true_iff in Hc. destruct Hc as [Hc Hcs].
+    cbn [app]. unfold write_rows. cbn [map concat length read_rows_all]. unfold write_row at 1. rewrite <- app_assoc. cbn [app].
+    fold (write_rows F d fs (rows1 ++ rows2)).
+    rewrite (read_row_ok F P d Hd fs r (write_rows F d fs (rows1 ++ rows2))
+               (match rows1 ++ rows2 with r2 :: _ => row_head_unsafe d fs r2 | [] => false end) Hne Hf Hr Hc).
+    - cbn [bind]. rewrite IH; [reflexivity|assumption|assumption|].
+      intro Esp. specialize (Hkf Esp). cbn [app kf_rows] in Hkf. apply orb_false_iff in Hkf. apply Hkf.
+    - intro Hu. destruct (rows1 ++ rows2) as [|r2 rest] eqn:E; [exact I|].
+      cbn [forallb] in Hrs, Hcs. apply andb_true_iff in Hrs. apply andb_true_iff in Hcs.
+      unfold write_rows. cbn [map concat]. unfold write_row at 1. rewrite <- app_assoc.
+      apply (write_fields_head F P d Hd); try assumption; [apply Hrs|apply Hcs].
+    - intro Esp. specialize (Hkf Esp). cbn [app kf_rows] in Hkf. apply orb_false_iff in Hkf. apply Hkf.
+  Qed.
+
+  Theorem read_first_rows t k :
+    table_ok t -> fcontract F P t -> kf_leading_ws_after_numeric d t = false ->
+    (1 <= k <= length (trows t))%nat ->
+    read_text P d (tdt t) (Z.of_nat k) (write_text F d t)
+    = Ok {| tdt := map native_fld (tdt t); trows := firstn k (trows (expected F P t)) |}.
+  Proof.
+    unfold table_ok, table_ok_b, fcontract, fcontract_b, kf_leading_ws_after_numeric.
+    destruct t as [fs rows]. cbn [tdt trows]. intros Hok Hc Hkf Hk.
+    apply andb_true_iff in Hok. destruct Hok as [Hok Hrows]. apply andb_true_iff in Hok. destruct Hok as [Hok Hr1].
+    apply andb_true_iff in Hok. destruct Hok as [Hf Hf1].
+    assert (Hne : fs <> []) by (destruct fs; discriminate).
+    unfold read_text, write_text, expected. cbn [tdt trows].
+    assert (Z.of_nat k <? 1 = false) as -> by lia.
+    unfold read_text_columns. rewrite Nat2Z.id. unfold keep_flags. rewrite map_length. rewrite read_rows_all_native.
+    set (nrows := map (to_native_row fs) rows).
+    assert (Hsplit : nrows = firstn k nrows ++ skipn k nrows) by (symmetry; apply firstn_skipn).
+    assert (Hlen : length (firstn k nrows) = k) by (apply firstn_length_le; unfold nrows; rewrite map_length; lia).
+    rewrite Hsplit at 1. rewrite <- Hlen at 1.
+    rewrite (read_rows_prefix fs Hne Hf (firstn k nrows) (skipn k nrows)).
+    - cbn [bind]. f_equal. f_equal. unfold nrows. rewrite <- (map_map (to_native_row fs) (rt_row F P fs)). rewrite !firstn_map. reflexivity.
+    - rewrite <- Hsplit. unfold nrows. rewrite forallb_map'. apply forallb_Forall. apply forallb_Forall in Hrows.
+      eapply Forall_impl; [|exact Hrows]. intros r Hr. apply row_ok_native. exact Hr.
+    - rewrite <- Hsplit. unfold nrows. rewrite forallb_map'. exact Hc.
+    - intro Esp. rewrite <- Hsplit. unfold nrows. rewrite kf_rows_native. rewrite Esp in Hkf. simpl in Hkf. exact Hkf.
+  Qed.
+End Prefix.
